@@ -183,6 +183,8 @@ def documents(thorough):
         [("span", "text-decoration:underline;color:red", ["ul"]), " z"], [("font", ["coloured"]), " text"],
         [("i", [0]), ("i", [1]), "c"], [("i", [("u", [("b", ["deep"])])])], ["a", ("i", [None]), "b"],
         [("span", "font-style:italic;font-weight:bold;text-decoration:underline;", ["all three"])],
+        # empty style elements (what SAMIWriter itself writes for an empty span): the text after them is plain
+        [("i", []), "plain after an empty i"], ["a ", ("b", []), "b ", ("u", []), "c"], [("span", "font-style:italic;", []), "after an empty span"],
     ]
     for k, m in enumerate(marks):
         yield f"markup {k}", {"langs": one, "variant": variants[k % len(variants)],
@@ -357,7 +359,8 @@ def trip_sets():
         (S, 2 * S, [("s", True, it), "start", ("s", False, it), " rest"]), (2 * S, 3 * S, ["head ", ("s", True, it), "end", ("s", False, it)]),
         (4 * S, 5 * S, [("s", True, it), "one", None, "two", ("s", False, it), " three"]),
         (6 * S, 7 * S, [("s", True, it), "a", ("s", False, it), ("s", True, {"bold": True}), "b", ("s", False, {"bold": True}), "c"]),
-        (8 * S, 9 * S, ["x & ", ("s", True, it), "<y>", ("s", False, it), " &amp; \"q\""]), (10 * S, 11 * S, ["last"])]}
+        (8 * S, 9 * S, ["x & ", ("s", True, it), "<y>", ("s", False, it), " &amp; \"q\""]),
+        (10 * S, 11 * S, [("s", True, {"bold": True}), ("s", False, {"bold": True}), "after an empty span"]), (12 * S, 13 * S, ["last"])]}
     yield "two languages", {"en-US": [(S, 3 * S, ["a"]), (4 * S, 5 * S, ["b", None, "b2"])],
                             "fr": [(2 * S, 3 * S, ["c"]), (3 * S, 4 * S + 500000, [("s", True, it), "d", ("s", False, it)]), (6 * S, 7 * S, ["e"])]}
     # one language code a prefix of another, in both orders: each keeps its own cues and its own label
